@@ -226,6 +226,91 @@ def compare_paths(out, name, func, sig_prefix):
     return "agree"
 
 
+CONCRETE = {
+    float: [0.0, 1.0, 0.5, 450.0, 2000.0, -3.0, 1e6],
+    int: [0, 1, 2, 17, 18, 25, 67],
+    bool: [False, True],
+}
+
+
+def concrete_inputs(func, params, cap=400):
+    """Argument columns from typed alphabets: base tuple, all single and all pairwise deviations (same alphabet per type, so that
+    equal values of different arguments occur)."""
+    sig = inspect.signature(func)
+    ann = func.__annotations__
+    names = [a for a in sig.parameters if not a.endswith("_params")]
+    alph = []
+    for a in names:
+        t = ann.get(a)
+        if t in CONCRETE:
+            alph.append(CONCRETE[t])
+        elif t is np.datetime64 or "datetime" in str(t):
+            alph.append([np.datetime64("1950-03-01"), np.datetime64("2001-12-31")])
+        else:
+            alph.append(CONCRETE[float])
+    base = tuple(x[1] for x in alph)
+    rows = [base]
+    seen = {repr(base)}
+    for i in range(len(names)):
+        for v in alph[i]:
+            t = base[:i] + (v,) + base[i + 1:]
+            if repr(t) not in seen:
+                seen.add(repr(t))
+                rows.append(t)
+    for i, j in itertools.combinations(range(len(names)), 2):
+        for v in alph[i]:
+            for w in alph[j]:
+                t = list(base)
+                t[i], t[j] = v, w
+                if repr(tuple(t)) not in seen and len(rows) < cap:
+                    seen.add(repr(tuple(t)))
+                    rows.append(tuple(t))
+    fixed = {a: params[a[:-7]] for a in sig.parameters if a.endswith("_params") and a[:-7] in params}
+    return names, rows, fixed
+
+
+def compare_concrete(out, name, func):
+    """Real conditions: the un-instrumented rule, scalar vs array form, on typed argument alphabets."""
+    try:
+        f2, _ = private_copy(func, instrument=False)
+        fv = make_vectorizable(f2, "numpy")
+    except Exception:  # noqa: BLE001
+        return "rewrite-fails"
+    params, _ = harness.env(env_date_for(func))
+    names, rows, fixed = concrete_inputs(func, params)
+    if not names:
+        return "no-data-arguments"
+    scal = []
+    with np.errstate(all="ignore"):
+        for r in rows:
+            try:
+                scal.append(f2(**dict(zip(names, r)), **fixed))
+            except Exception:  # noqa: BLE001
+                scal.append(None)
+    cols = {a: np.array([r[i] for r in rows]) for i, a in enumerate(names)}
+    try:
+        with np.errstate(all="ignore"):
+            res = np.asarray(fv(**{k: v.copy() for k, v in cols.items()}, **fixed))
+    except Exception:  # noqa: BLE001
+        return "array-call-raises"
+    n = len(rows)
+    if res.shape == (n,):
+        bad = [i for i in range(n) if scal[i] is not None and not _same(res[i], scal[i])]
+    elif res.shape == ():
+        bad = [i for i in range(n) if scal[i] is not None and not _same(res[()], scal[i])]
+    else:
+        bad = [i for i in range(n) if scal[i] is not None]
+    out.step(sum(1 for x in scal if x is not None))
+    if bad:
+        i = bad[0]
+        got = res[i] if res.shape == (n,) else f"shape {res.shape}"
+        out.violation(f"corpus:{name}:silently-different", {"function": name, "module": func.__module__, "concrete": True, "inputs": dict(zip(names, rows[i])),
+                                                          "rows_differing": len(bad), "rows_compared": n},
+                      f"{func.__module__}.{name}: array form differs from the scalar rule on {len(bad)}/{n} concrete inputs; {dict(zip(names, rows[i]))}: scalar {scal[i]!r} array {got!r}")
+        return "MISMATCH"
+    return "agree"
+
+
 def task_corpus(names):
     out = Partial()
     fs = load_internal_functions()
@@ -239,6 +324,8 @@ def task_corpus(names):
         label = compare_paths(out, name, func, "corpus")
         out.outcome(label.split(":")[0])
         out.count("corpus_" + label.split(":")[0])
+        label2 = compare_concrete(out, name, func)
+        out.count("concrete_" + label2)
     out.sample({"functions": names[:3]}, limit=1)
     return out.dump()
 
@@ -247,13 +334,14 @@ def task_corpus(names):
 CONDS = [
     "a0", "not a0", "a0 and a1", "a0 or a1", "not (a0 and a1)", "(a0 or a1) and a2", "not a0 and not a1", "x > y", "x <= y and a0",
     "any([a0, a1])", "all((a0, a1))", "a0 or not a2",
+    "x >= y", "not x >= y", "not x > y", "x == y", "not x == y", "x != y", "not (x < y)", "not x <= y or a0", "x < y < z",
 ]
 EXPRS = [
     "x", "y + 1.0", "2.0", "x + y", "min(x, y)", "max(x, y)", "min([x, y])", "max((x, z))", "sum([x, y])", "sum((x, y, z))",
     "x if a2 else y", "x if a1 else (y if a2 else z)", "max(x, 0.0) + min(y, z)",
 ]
 EXPRS_SMALL = ["x", "y + 1.0", "min(x, y)", "x if a2 else y", "max([y, z])"]
-CONDS_SMALL = ["a0", "not a1", "a0 and a1", "x > y", "a1 or a2"]
+CONDS_SMALL = ["a0", "not a1", "a0 and a1", "x > y", "a1 or a2", "not x >= y", "x != z"]
 HEAD = "def f(x, y, z, a0, a1, a2):\n"
 
 
@@ -376,7 +464,7 @@ def task_grammar(arg):
                 for ft in feats:
                     out.violation("grammar:" + ft, case, msg)
             else:
-                out.violation("grammar:form=" + form + ":" + src.replace(HEAD, "").strip().replace("\n", ";")[:120], case, msg)
+                out.violation("grammar:no-listed-construct:form=" + form, case, msg)
             out.outcome((form, "MISMATCH"))
             out.count("grammar_mismatch")
         else:
